@@ -35,6 +35,11 @@ struct Report
 
 // runs the bodies on real threads, exactly one at a time, switching at instrumentation callbacks
 Report runThreads(const Config& cfg, const std::vector<std::function<void()>>& bodies);
+// One storage per distinct content, process-wide and never released: receive buffers that several threads decode at the
+// same time ("the same capture buffer handed to two decoders"). Input buffers are const for the library, so sharing them
+// is legitimate; a library that writes to its input shows as a conflict with the other threads' reads. Filling the
+// buffer is not recorded as an access.
+const uint8_t* internInput(const uint8_t* data, size_t n);
 // number of yield points a body passes when run alone on the calling thread (not scheduled)
 uint64_t countYieldPoints(const std::function<void()>& body);
 
